@@ -752,9 +752,8 @@ var vq2TimePool = func() []time.Time {
 	return out
 }()
 
-// vq2Quanta: time quanta used. "H" alone is left out (known finding D21 of group gT: timeOfView rejects hour
-// views >= 13 when the hour is the coarsest unit).
-var vq2Quanta = []string{"YMDH", "YMD", "YM", "Y", "MDH", "MD", "D", "DH", "M"}
+// vq2Quanta: every valid time quantum.
+var vq2Quanta = []string{"YMDH", "YMD", "YM", "Y", "MDH", "MD", "D", "DH", "M", "H"}
 
 func vq2SmallestUnit(q string) byte { return q[len(q)-1] }
 
@@ -791,11 +790,66 @@ func vq2GenBound(t *rapid.T, f *vq2Field, label string) time.Time {
 	return vq2AddUnit(vq2Align(base, f.Quantum), f.Quantum, d)
 }
 
+// vq2IntRanges: declared (min,max) of the generated int field: around zero, one-sided, with a non-zero base.
+var vq2IntRanges = [][2]int64{{-1000, 1000}, {-1000, 1000}, {0, 1000}, {-1000, 0}, {5, 1000}, {-1000, -5}, {-3, 3}, {-1 << 40, 1 << 40}}
+
+func vq2Clamp(v, lo, hi int64) int64 {
+	if v < lo {
+		return lo
+	}
+	if v > hi {
+		return hi
+	}
+	return v
+}
+
+// vq2GenIntVal draws a value to store: negative, zero, positive, the declared bounds, powers of two +-1.
+func vq2GenIntVal(t *rapid.T, f *vq2Field, label string) int64 {
+	v := rapid.OneOf(
+		rapid.SampledFrom([]int64{0, 0, 1, -1, 2, -2, 3, 7, -7, 8, -8, 9, 100, -100, 255, 256, 999, 1000, -1000, f.Min, f.Max, f.Min + 1, f.Max - 1}),
+		rapid.Int64Range(f.Min, f.Max),
+		rapid.Int64Range(-20, 20),
+	).Draw(t, label)
+	return vq2Clamp(v, f.Min, f.Max)
+}
+
+// vq2GenIntPredicate draws a comparison value: 0, +-1, stored values and their neighbours, the declared bounds and
+// their neighbours, far outside, anything.
+func vq2GenIntPredicate(t *rapid.T, f *vq2Field, label string) int64 {
+	var stored []int64
+	seen := map[int64]bool{}
+	for _, c := range vq2SortedIntCols(f) {
+		if v := f.ints[c]; !seen[v] {
+			seen[v] = true
+			stored = append(stored, v)
+		}
+	}
+	gens := []*rapid.Generator[int64]{
+		rapid.SampledFrom([]int64{0, 0, 1, -1, 2, -2, f.Min, f.Min - 1, f.Min + 1, f.Max, f.Max + 1, f.Max - 1, 5000, -5000, 1 << 41, -(1 << 41)}),
+		rapid.Int64Range(-1100, 1100),
+	}
+	if len(stored) > 0 {
+		gens = append(gens, rapid.Custom(func(t *rapid.T) int64 {
+			return rapid.SampledFrom(stored).Draw(t, "stored") + int64(rapid.IntRange(-1, 1).Draw(t, "d"))
+		}))
+		gens = append(gens, gens[len(gens)-1]) // weight
+	}
+	return rapid.OneOf(gens...).Draw(t, label)
+}
+
+func vq2SortedIntCols(f *vq2Field) []uint64 {
+	s := vq2Set{}
+	for c := range f.ints {
+		s[c] = true
+	}
+	return s.sorted()
+}
+
 type vq2DataOpt struct {
 	SetFields int  // number of set fields (s1..)
 	Time      bool // time field t1
 	TimeNoStd bool // allow noStandardView for t1
-	Int       bool // int field n1 (0..1000)
+	Int       bool // int field n1 (range drawn from vq2IntRanges)
 	Mutex     bool // mutex field m1
 	Bool      bool // bool field b1
 	MaxBits   int  // per field
@@ -836,11 +890,11 @@ func vq2GenData(t *rapid.T, opt vq2DataOpt) (*vq2Model, []uint64, []vq2Op) {
 		}
 	}
 	if opt.Int {
-		f := m.addField(&vq2Field{Name: "n1", Kind: "int", Min: 0, Max: 1000})
+		rng := rapid.SampledFrom(vq2IntRanges).Draw(t, "intRange")
+		f := m.addField(&vq2Field{Name: "n1", Kind: "int", Min: rng[0], Max: rng[1]})
 		n := rapid.IntRange(0, opt.MaxBits).Draw(t, "nvals")
 		for j := 0; j < n; j++ {
-			v := rapid.OneOf(rapid.SampledFrom([]int64{0, 1, 2, 3, 7, 8, 100, 999, 1000}), rapid.Int64Range(0, 1000)).Draw(t, "val")
-			ops = append(ops, vq2Op{Kind: "setint", Field: f.Name, Col: col(), Val: v})
+			ops = append(ops, vq2Op{Kind: "setint", Field: f.Name, Col: col(), Val: vq2GenIntVal(t, f, "val")})
 		}
 	}
 	if opt.Mutex {
@@ -863,11 +917,6 @@ func vq2GenData(t *rapid.T, opt vq2DataOpt) (*vq2Model, []uint64, []vq2Op) {
 	if len(ops) > 1 {
 		perm := rapid.Permutation(ops).Draw(t, "order")
 		ops = perm
-	}
-	if opt.Int {
-		// Prime the int field to its full bit depth: conditions beyond the current bit depth (bsiGroup.baseValue,
-		// finding D16 of group gQ1 and its mirror image for LT) belong to C14, not to this leaf.
-		ops = append([]vq2Op{{Kind: "setint", Field: "n1", Col: cols[0], Val: 1000}}, ops...)
 	}
 	return m, cols, ops
 }
@@ -915,38 +964,16 @@ func (g *vq2ExprGen) leaf(t *rapid.T) *vq2Expr {
 	case "int":
 		e := &vq2Expr{Op: "rowi", Field: f.Name}
 		e.Cond = rapid.SampledFrom([]string{">", "<", ">=", "<=", "==", "!=", "notnull", "between"}).Draw(t, "cond")
-		val := func(l string) int64 {
-			return rapid.OneOf(rapid.SampledFrom([]int64{-5, -1, 0, 1, 2, 3, 7, 8, 100, 999, 1000, 1001, 5000}), rapid.Int64Range(0, 1000)).Draw(t, l)
-		}
+		val := func(l string) int64 { return vq2GenIntPredicate(t, f, l) }
 		e.V1 = val("v1")
 		if e.Cond == "between" {
 			e.V2 = val("v2")
-			if e.V2 < e.V1 {
+			// mostly lo <= hi; now and then an inverted (empty) interval
+			if e.V2 < e.V1 && rapid.IntRange(0, 7).Draw(t, "inverted?") > 0 {
 				e.V1, e.V2 = e.V2, e.V1
 			}
 			e.LoEq = rapid.Bool().Draw(t, "loeq")
 			e.HiEq = rapid.Bool().Draw(t, "hieq")
-		}
-		// Integer semantics proper belong to C14 (group gQ1). Strict "< v" with v <= 0 and integer-empty between
-		// intervals return the column holding 0 on this tree (reported to gQ1); this leaf generator stays clear of
-		// exactly those predicate shapes.
-		if e.Cond == "<" && e.V1 <= 0 {
-			e.V1 = 1
-		}
-		if e.Cond == "between" {
-			if !e.HiEq && e.V2 <= 0 {
-				e.HiEq = true
-			}
-			lo, hi := e.V1, e.V2
-			if !e.LoEq {
-				lo++
-			}
-			if !e.HiEq {
-				hi--
-			}
-			if lo > hi {
-				e.LoEq, e.HiEq = true, true
-			}
 		}
 		return e
 	case "time":
